@@ -178,7 +178,7 @@ func main() {
 			&slice{name: "forests 8", cfg: memCfg(8, 8, 4, false), o: judgeOpts{supp: true, lean: true}, thin: true},
 			&slice{name: "forests 9", cfg: memCfg(9, 9, 4, false), o: judgeOpts{supp: true, lean: true}, thin: true})
 	} else {
-		slices_ = append(slices_, &slice{name: "forests 0..5", cfg: memCfg(0, 5, 3, false), o: judgeOpts{supp: true}})
+		slices_ = append(slices_, &slice{name: "forests 0..5", cfg: memCfg(0, 5, 3, false), o: judgeOpts{supp: true, lean: true}})
 	}
 	tmpl, K := hostTemplate()
 	ready := make(chan *slice, 1)
